@@ -72,7 +72,7 @@ func main() {
 	run.Assume("the double's propagation module emits what a Redis master would (fakeredis/role_propagate.go: SELECT, MULTI/EXEC wrapping per version, PXAT/PEXPIREAT/ABSTTL/XADD-id rewrites, no-op omission); lazy-expiry DELs are not modelled, TTLs are kept far in the future")
 	run.Assume("both sites standalone: one lane per link, links execute their stream in order; 'applied' = executed by a link connection (every connection that is not one of the harness' own named connections)")
 	run.Assume("the two sites only write shared keys with commands that cannot fail on the other site's value (bisync does not arbitrate conflicts); the statement's 'absent restarts' holds: no link is restarted")
-	run.Assume("in bisync mode the tool replays every source database into database 0 of the target; the database a write lands in is not judged here")
+	run.Assume("in bisync mode the tool replays every source database into database 0 of the target (dispatchBisyncUnit never selects a database); writes the clients make in databases 1..3 are foreign writes judged on exactly-once like any other, the database they land in is not judged; they also move the site's replication stream out of database 0, so that the links' transactions are propagated with a SELECT (inside the MULTI for the Redis ≥ 7 model, before it for 6.2)")
 	run.MinDistinct(6)
 
 	n := run.N(720, 7200)
@@ -484,6 +484,8 @@ func finish(run *harness.Run, env *loopEnv, links []*link) {
 			run.Count("mirrored_txn_suppressed", int64(v.mirrored))
 			run.Count("standalone_bookkeeping_commands_skipped", int64(v.standalone))
 		}
+		run.Count("mirrored_txn_with_select_inside_multi", int64(v.selInside))
+		run.Count("mirrored_txn_with_select_before_multi", int64(v.selBefore))
 		run.Count("mirrored_txn_shrunk_to_bookkeeping", int64(v.shrunk))
 		run.Count("mirrored_txn_partly_shrunk", int64(v.shrunkPart))
 		if v.shrunk > 0 {
